@@ -137,17 +137,37 @@ Theorem C05_Free_fit_roundtrip_q e0 e1 e2 e3' p : e0*e0+e1*e1+e2*e2+e3'*e3' = 1 
 Proof. exact (Free_fit_roundtrip_q e0 e1 e2 e3' p). Qed.
 Print Assumptions C05_Free_fit_roundtrip_q.
 
-Theorem C05_BendStretch_fit_negative_stretch_refuted :
-  exists q0 q1, BendStretch_X ROps (BendStretch_fitT ROps (snd (BendStretch_X ROps (q0,q1)))) <> BendStretch_X ROps (q0,q1).
-Proof. exact (@BendStretch_fit_negative_stretch_refuted). Qed.
-Print Assumptions C05_BendStretch_fit_negative_stretch_refuted.
+Theorem C05_Ell_fitU_roundtrip r R u0 u1 u2 : Ell_fitU (Hu ROps (Ell_H ROps r R) (u0 :: u1 :: u2 :: nil)) = (u0,u1,u2).
+Proof. exact (Ell_fitU_roundtrip r R u0 u1 u2). Qed.
+Print Assumptions C05_Ell_fitU_roundtrip.
 
-Theorem C05_Ell_fitV_refuted : exists r R u0 u1 u2, is_rot R /\
-  Ell_fitV ROps r R (Hu ROps (Ell_H ROps r R) (u0 :: u1 :: u2 :: nil)) <> (u0,u1,u2).
-Proof. exact (@Ell_fitV_refuted). Qed.
-Print Assumptions C05_Ell_fitV_refuted.
+Theorem C05_Ell_fit_roundtrip_q r e0 e1 e2 e3' : e0*e0+e1*e1+e2*e2+e3'*e3' = 1 ->
+  Ell_Xq ROps r (Ball_fitRq ROps (fst (Ell_Xq ROps r (e0,e1,e2,e3')))) = Ell_Xq ROps r (e0,e1,e2,e3').
+Proof. exact (Ell_fit_roundtrip_q r e0 e1 e2 e3'). Qed.
+Print Assumptions C05_Ell_fit_roundtrip_q.
 
-Theorem C05_Ell_fitV_sphere_roundtrip a R u0 u1 u2 : a <> 0 -> is_rot R ->
-  Ell_fitV ROps (a,a,a) R (Hu ROps (Ell_H ROps (a,a,a) R) (u0 :: u1 :: u2 :: nil)) = (u0,u1,u2).
-Proof. exact (Ell_fitV_sphere_roundtrip a R u0 u1 u2). Qed.
-Print Assumptions C05_Ell_fitV_sphere_roundtrip.
+Theorem C05_Ell_fit_roundtrip_e_partial r q0 q1 q2 : 0 < cos q1 ->
+  Ell_Xe ROps r (xyz_angles ROps (fst (Ell_Xe ROps r (q0,q1,q2)))) = Ell_Xe ROps r (q0,q1,q2).
+Proof. exact (Ell_fit_roundtrip_e_partial r q0 q1 q2). Qed.
+Print Assumptions C05_Ell_fit_roundtrip_e_partial.
+
+Theorem C05_BendStretch_fit_roundtrip_partial q0 q1 : q1 <> 0 ->
+  BendStretch_X ROps (BendStretch_fitX ROps (BendStretch_X ROps (q0,q1))) = BendStretch_X ROps (q0,q1).
+Proof. exact (BendStretch_fit_roundtrip_partial q0 q1). Qed.
+Print Assumptions C05_BendStretch_fit_roundtrip_partial.
+
+Theorem C05_BendStretch_fit_prefix_negative_stretch_refuted :
+  exists q0 q1, BendStretch_X ROps (BendStretch_fitT_prefix ROps (snd (BendStretch_X ROps (q0,q1)))) <> BendStretch_X ROps (q0,q1).
+Proof. exact (@BendStretch_fit_prefix_negative_stretch_refuted). Qed.
+Print Assumptions C05_BendStretch_fit_prefix_negative_stretch_refuted.
+
+Theorem C05_Ell_fitV_prefix_refuted : exists r R u0 u1 u2, is_rot R /\
+  Ell_fitV_prefix ROps r R (Hu ROps (Ell_H ROps r R) (u0 :: u1 :: u2 :: nil)) <> (u0,u1,u2).
+Proof. exact (@Ell_fitV_prefix_refuted). Qed.
+Print Assumptions C05_Ell_fitV_prefix_refuted.
+
+Theorem C05_Ell_fitV_prefix_sphere_roundtrip a R u0 u1 u2 : a <> 0 -> is_rot R ->
+  Ell_fitV_prefix ROps (a,a,a) R (Hu ROps (Ell_H ROps (a,a,a) R) (u0 :: u1 :: u2 :: nil)) = (u0,u1,u2).
+Proof. exact (Ell_fitV_prefix_sphere_roundtrip a R u0 u1 u2). Qed.
+Print Assumptions C05_Ell_fitV_prefix_sphere_roundtrip.
+
